@@ -63,7 +63,9 @@ Positions == <<"stmt", "let", "left", "right", "deep", "neg", "arg1of1", "arg1of
                "matchscrut", "matcharm", "return", "index", "indexee", "structarg", "variantarg", "assign", "assignop",
                "idxassign", "idxassigni", "fldassign", "concat", "block", "lambda", "cmp", "andrhs", "second", "first",
                \* the tried payload is void (its success leaves nothing behind), in positions where the operand stack matters
-               "vstmt", "vfor", "vforarr", "voperand", "vwhile">>
+               "vstmt", "vfor", "vforarr", "voperand", "vwhile",
+               \* the operand of the operator binds a variable itself (a match arm binding / a let in an if block)
+               "m-let", "m-arg", "m-stmt", "l-let", "l-arg">>
 \* positions combined pairwise in the thorough tier
 CorePositions == <<"stmt", "let", "right", "deep", "arg2of3", "receiver", "tuple", "array", "nested", "for", "while",
                    "matchscrut", "structarg", "assignop", "lambda">>
@@ -133,6 +135,18 @@ PosOf(pos, n, op, car, g) ==
                    PrintS(Call("h" \o sfx, <<Tr(k + 1)>>))>>, v |-> I(0)]
     [] pos = "cmp"     -> [ss |-> <<Let(tt, Bin("==", t, I(k + 5))), PrintS(V(tt))>>, v |-> I(0)]
     [] pos = "andrhs"  -> [ss |-> <<Let(tt, Bin("and", Bin("==", Tr(k + 1), I(k + 1)), Bin("==", t, I(k + 5)))), PrintS(V(tt))>>, v |-> I(0)]
+    [] pos \in {"m-let", "m-arg", "m-stmt", "l-let", "l-arg"} ->
+         LET nm == "n" \o sfx  dn == "d" \o sfx
+             \* match tr(k+5) { 0 -> bad, n -> if g { good(n) } else { bad } }     (tr(k+5) is never 0)
+             opM == [k |-> "match", s |-> Tr(k + 5), arms |-> <<
+                       [p |-> [k |-> "lit", v |-> IntV(0)], e |-> Bad(car)],
+                       [p |-> PB(nm), e |-> Ife(g, Good(car, V(nm)), Bad(car))] >>]
+             \* if g { let d = tr(k+5); good(d) } else { bad }
+             opL == Ife(g, Blk(<<Let(dn, Tr(k + 5)), ExprS(Good(car, V(dn)))>>), Blk(<<ExprS(Bad(car))>>))
+             o == Op(op, IF pos \in {"m-let", "m-arg", "m-stmt"} THEN opM ELSE opL)
+         IN (CASE pos \in {"m-let", "l-let"} -> letv(o)
+               [] pos \in {"m-arg", "l-arg"} -> letv(Call("add2", <<Tr(k + 1), o>>))
+               [] pos = "m-stmt" -> [ss |-> <<ExprS(o)>>, v |-> Tr(k + 1)])
     [] pos = "vstmt"   -> [ss |-> <<ExprS(TV(op, car, k + 5, g))>>, v |-> Tr(k + 1)]
     [] pos = "vfor"    -> [ss |-> <<Var(acc, I(0)),
                                     [k |-> "for", p |-> PB(ii), it |-> [k |-> "count", e |-> I(3)],
